@@ -1,3 +1,4 @@
+import Sidetree.Props.C05Num
 import Sidetree.Hashing
 import Sidetree.Jwk
 import Sidetree.Drv.Common
@@ -34,7 +35,11 @@ def jcs (c : Json) : Json :=
         | some cs2 => .str (hexOfChars cs2)
         | none => .str "err")
       | none => .null
-    .obj [("bytes", direct), ("value", viaValue), ("again", again)]
+    -- the hypothesis of `Props.C05.canonical_text_reads_back_ints` & co., evaluated on this case
+    let premises := match Parse.parse text with
+      | some v => Props.C05.intsOnly v
+      | none => false
+    .obj [("bytes", direct), ("value", viaValue), ("again", again), ("premises", .bool premises)]
 
 /-- kind `num` (C05): ES6 rendering of a bit pattern -/
 def num (c : Json) : Json :=
